@@ -67,8 +67,14 @@ BigLets == { LetOf(BigBinds(98, 0, bad), body) :
            \cup { LetOf(<<VX, AssignT, A>>, LetOf(BigBinds(99, 0, 0 - 1), <<LB, VX, Comma, VN(99, 1), RB>>)),
                   LetOf(<<VN(98, 5), AssignT, A>>, LetOf(BigBinds(99, 0, 0 - 1), <<VN(98, 5)>>)) }
 
+\* depth 3: a let whose body places a depth-2 let under a projection / multi-select
+InnerBinds2 == { <<VX, AssignT, Json(<<96,55,96>>)>>, <<VY, AssignT, VX>>, <<VX, AssignT, VY, Comma, VY, AssignT, VX>> }
+Lets2 == { LetOf(bs, w) : bs \in InnerBinds2, w \in UNION { Wrap(l) : l \in { LetOf(b2, b) : b2 \in {<<VX, AssignT, Json(<<96,57,96>>)>>, <<VY, AssignT, VX>>, <<VX, AssignT, Json(<<96,110,117,108,108,96>>)>>}, b \in InnerBody } } }
+Body2 == UNION { Wrap(l) : l \in Lets2 }
+
 Exprs == { LetOf(bs, b) : bs \in Binds, b \in Body0 } \cup BigLets
          \cup (IF Depth >= 2 THEN { LetOf(bs, b) : bs \in Binds, b \in Body1 } ELSE {})
+         \cup (IF Depth >= 3 THEN { LetOf(bs, b) : bs \in {<<VX, AssignT, A>>, <<VY, AssignT, B, Comma, VX, AssignT, Json(<<96,49,96>>)>>, <<VX, AssignT, Json(<<96,110,117,108,108,96>>)>>}, b \in Body2 } ELSE {})
          \cup Body0                                              \* no enclosing binding: undefined variable
 ExprSeq == SetToSeq(Exprs)
 
